@@ -225,3 +225,15 @@ func fn43(b bool, x any) any {
 	}
 	return x
 }
+
+func fn44() any {
+	// recover may return nil; calling it outside of a deferred function always does.
+	return recover()
+}
+
+func fn45() (r any) {
+	defer func() {
+		r = recover()
+	}()
+	return 1
+}
